@@ -559,10 +559,14 @@ class Types:
                                         if a.vararg.annotation else EMPTY)
             if a.kwarg:
                 env[a.kwarg.arg] = frozenset([("prim", "dict")])
-            # two sweeps so that later assignments can use earlier-defined names and vice versa
-            for _ in range(2):
-                for n in _walk_own(f.node):
+            # sweep to a fixpoint (bounded): later assignments may feed earlier uses in loops
+            nodes = list(_walk_own(f.node))
+            for _ in range(5):
+                before = dict(env)
+                for n in nodes:
                     self._bind_stmt(n, env, fc)
+                if env == before:
+                    break
         finally:
             self._in_local.discard(key)
         return env
@@ -1016,16 +1020,20 @@ def _split_union(s):
 
 
 def _walk_own(fnode):
-    """Walk a function body without descending into nested function/class definitions (but do
-    descend into comprehensions and lambdas)."""
-    stack = list(fnode.body)
-    while stack:
-        n = stack.pop()
+    """Walk a function body in source order without descending into nested function/class
+    definitions (comprehensions and lambdas are descended into)."""
+    def rec(n):
         yield n
         for c in ast.iter_child_nodes(n):
             if isinstance(c, (ast.FunctionDef, ast.AsyncFunctionDef, ast.ClassDef)):
                 continue
-            stack.append(c)
+            yield from rec(c)
+
+    for st in fnode.body:
+        if isinstance(st, (ast.FunctionDef, ast.AsyncFunctionDef, ast.ClassDef)):
+            yield st
+            continue
+        yield from rec(st)
 
 
 walk_own = _walk_own
